@@ -151,6 +151,41 @@ func runC11(c *Ctx) {
 		streams = append([][]byte{s.Bytes()}, streams...)
 		pool = append([][]byte{s.Bytes()}, pool...)
 	}
+	// files whose missing last byte happens to equal what an earlier read left in a
+	// scratch buffer (the profile version byte of the header for CheckIntegrity, the
+	// second byte of the last field for Decode): a short read of the CRC must not go unnoticed
+	for v := 0; v < 4; v++ {
+		arch := byte(v % 2)
+		build := func(prof uint16, a byte) []byte {
+			s := newStream(12, false)
+			s.profile = prof
+			s.FileId(0, arch, 4)
+			s.Def(1, arch, 20, []FieldDef{{3, 1, 2}, {7, 2, 0x84}}, nil)
+			s.Data(1, []byte{60, 1, 2})
+			s.Data(1, []byte{61, a, 0x5A})
+			return s.Bytes()
+		}
+	search:
+		for x := 0; x < 256; x++ {
+			for y := 0; y < 256; y++ {
+				var b []byte
+				if v < 2 {
+					b = build(uint16(x)|uint16(y)<<8, 7) // CheckIntegrity: header byte 2 (= x) is what stays behind
+					if int(b[len(b)-1]) != x {
+						continue
+					}
+				} else {
+					b = build(uint16(2000+y), byte(x)) // Decode: the second byte of the last field (0x5A) stays behind
+					if b[len(b)-1] != 0x5A {
+						continue
+					}
+				}
+				streams = append([][]byte{b}, streams...)
+				pool = append([][]byte{b}, pool...)
+				break search
+			}
+		}
+	}
 	var calls []*Call
 	id := 0
 	noffsets := 0
